@@ -3298,11 +3298,236 @@ C07_CONN_OPS = ["send_message", "send_to_name", "link", "unlink", "monitor", "de
 C07_NODE_FNS = ["send_remote", "link", "unlink", "monitor", "demonitor"]
 
 
+def gen_c04conn(read, num):
+    """C04, connect path: the EPMD client's message tags, node types and reply limits (epmd_client.rs), whether the two
+    request/reply exchanges on the connect/start path run under the configured timeout, and `Connection::connect` as the
+    ordered list of awaited steps with, per helper, the handshake method it calls and the transport operation it awaits;
+    which transport operations are wrapped in `tokio::time::timeout(self.timeout, ...)` (transport.rs).
+    `Impl/Epmd.lean` and `Impl/Connect.lean` interpret these tables; `Props/C04.lean` compares them with the protocol."""
+    broken = []
+    lines = []
+    ep = read("crates/edp_client/src/epmd_client.rs")
+    consts = []
+    types = []
+    limits = {}
+    guarded = []
+    type_arms = []
+    proto_arms = []
+    if ep is None:
+        broken.append("epmd_client.rs missing")
+    else:
+        found = dict(re.findall(r"const\s+([A-Z0-9_]+)\s*:\s*u8\s*=\s*([0-9]+)\s*;", ep))
+        for want in ("ALIVE2_REQ", "ALIVE2_RESP", "ALIVE2_X_RESP", "PORT2_REQ", "PORT2_RESP"):
+            if want not in found:
+                broken.append(f"const {want}: u8 = <n>; not found in epmd_client.rs")
+            else:
+                consts.append((want, int(found[want])))
+        ebody = _fn_body(ep, r"pub\s+enum\s+NodeType\s*\{")
+        if ebody is None:
+            broken.append("enum NodeType not found in epmd_client.rs")
+        else:
+            types = [(n, int(v)) for n, v in re.findall(r"\b([A-Z][A-Za-z0-9]*)\s*=\s*([0-9]+)\s*,", re.sub(r"//[^\n]*", "", ebody))]
+            if not types:
+                broken.append("enum NodeType: no `Name = <n>,` variants")
+        lbody = _fn_body(ep, r"async\s+fn\s+lookup_node_exchange\s*\(") or _fn_body(ep, r"pub\s+async\s+fn\s+lookup_node\s*\(")
+        if lbody is None:
+            broken.append("lookup_node body not found")
+        else:
+            m = re.search(r"let\s+node_type\s*=\s*match\s+stream\.read_u8\(\)\.await\?\s*\{(.*?)other\s*=>", lbody, re.S)
+            if not m:
+                broken.append("lookup_node: `let node_type = match stream.read_u8().await? { ... other =>` not found")
+            else:
+                type_arms = [(int(v), n) for v, n in re.findall(r"([0-9]+)\s*=>\s*NodeType::([A-Za-z0-9]+)", m.group(1))]
+            m = re.search(r"let\s+protocol\s*=\s*match\s+stream\.read_u8\(\)\.await\?\s*\{(.*?)other\s*=>", lbody, re.S)
+            if not m:
+                broken.append("lookup_node: `let protocol = match stream.read_u8().await? { ... other =>` not found")
+            else:
+                proto_arms = [(int(v), n) for v, n in re.findall(r"([0-9]+)\s*=>\s*Protocol::([A-Za-z0-9]+)", m.group(1))]
+            for var, key in (("nlen", "EPMD_MAX_NAME"), ("elen", "EPMD_MAX_EXTRA")):
+                m = re.search(r"let\s+" + var + r"\s*=\s*stream\.read_u16\(\)\.await\?\s*;\s*if\s+" + var + r"\s*>\s*([0-9_]+)\s*\{\s*return\s+Err", lbody)
+                if not m:
+                    broken.append(f"lookup_node: `let {var} = stream.read_u16().await?; if {var} > <n> {{ return Err` not found")
+                else:
+                    limits[key] = num(m.group(1))
+                # the buffer is requested only after the guard
+                ma = re.search(r"vec!\[0u8;\s*" + var + r"\s+as\s+usize\]", lbody)
+                if not ma or (m and ma.start() < m.end()):
+                    broken.append(f"lookup_node: the {var} buffer is not allocated after its guard")
+            order = [w for w in re.findall(r"stream\.(read_u8|read_u16|read_u32|read_exact)\(", lbody)]
+            lines.append("/-- the reads of `lookup_node` in source order -/")
+            lines.append("def EPMD_LOOKUP_READS : List String := [" + ", ".join(f'"{w}"' for w in order) + "]")
+        for fn in ("lookup_node", "register_node"):
+            b = _fn_body(ep, r"pub\s+async\s+fn\s+" + fn + r"\s*\(")
+            if b is None:
+                broken.append(f"pub async fn {fn} not found")
+            elif re.search(r"self\s*\.\s*within_timeout\s*\(\s*self\s*\.\s*" + fn + r"_exchange\s*\(", b):
+                guarded.append(fn)
+        wbody = _fn_body(ep, r"async\s+fn\s+within_timeout\s*<")
+        if guarded and not (wbody and re.search(r"tokio::time::timeout\(\s*self\.timeout\s*,\s*exchange\s*\)", wbody) and "Error::Timeout" in wbody):
+            broken.append("within_timeout no longer wraps the exchange in tokio::time::timeout(self.timeout, ..) -> Error::Timeout")
+    lines.append("/-- EPMD message tags of epmd_client.rs -/")
+    lines.append("def EPMD_CONSTS : List (String × Nat) := [" + ", ".join(f'("{n}", {v})' for n, v in consts) + "]")
+    have = dict(consts)
+    for want in ("ALIVE2_REQ", "ALIVE2_RESP", "ALIVE2_X_RESP", "PORT2_REQ", "PORT2_RESP"):
+        lines.append(f"def EPMD_{want} : Nat := {have.get(want, 0)}")
+    lines.append("/-- `enum NodeType` (name, discriminant) -/")
+    lines.append("def EPMD_NODE_TYPES : List (String × Nat) := [" + ", ".join(f'("{n}", {v})' for n, v in types) + "]")
+    lines.append("/-- the node-type bytes `lookup_node` accepts (match arms, in source order) and the variant each gives -/")
+    lines.append("def EPMD_TYPE_ARMS : List (Nat × String) := [" + ", ".join(f'({v}, "{n}")' for v, n in type_arms) + "]")
+    lines.append("def EPMD_PROTO_ARMS : List (Nat × String) := [" + ", ".join(f'({v}, "{n}")' for v, n in proto_arms) + "]")
+    lines.append(f"/-- `if nlen > <n>` / `if elen > <n>`: the largest name / extra length `lookup_node` allocates a buffer for -/")
+    lines.append(f"def EPMD_MAX_NAME : Nat := {limits.get('EPMD_MAX_NAME', 0)}")
+    lines.append(f"def EPMD_MAX_EXTRA : Nat := {limits.get('EPMD_MAX_EXTRA', 0)}")
+    lines.append("/-- the public EPMD calls whose whole exchange runs under `tokio::time::timeout(self.timeout, ..)` -/")
+    lines.append("def EPMD_UNDER_TIMEOUT : List String := [" + ", ".join(f'"{g}"' for g in guarded) + "]")
+    lines.append("")
+
+    # Connection::connect
+    cn = read("crates/edp_client/src/connection.rs")
+    steps = []      # (helper, handshake method, transport op)
+    pre = []
+    if cn is None:
+        broken.append("connection.rs missing")
+    else:
+        body = _fn_body(cn, r"pub\s+async\s+fn\s+connect\s*\(\s*&mut\s+self\s*\)")
+        if body is None:
+            broken.append("Connection::connect not found")
+        else:
+            flat = re.sub(r"\s+", "", re.sub(r"//[^\n]*", "", body))
+            marks = [("begin_connect", r"self\.handshake\.begin_connect\(\)\?"),
+                     ("split_remote_name", r"\.remote_node_name\.split_once\('@'\)\.ok_or_else\("),
+                     ("lookup_remote_node", r"self\.lookup_remote_node\(\)\.await\?"),
+                     ("tcp_connect", r"tokio::time::timeout\(self\.config\.timeout,TcpStream::connect\(&addr\)\)\.await\.map_err\(\|_\|Error::Timeout\(self\.config\.timeout\)\)\?\.map_err\(Error::Io\)\?"),
+                     ("transport_connect", r"self\.transport\.connect\(stream\)")]
+            pos = -1
+            for name, rx in marks:
+                m = re.search(rx, flat)
+                if not m:
+                    broken.append(f"Connection::connect: step `{name}` not found")
+                    continue
+                if m.start() < pos:
+                    broken.append(f"Connection::connect: step `{name}` is out of order")
+                pos = m.start()
+                pre.append(name)
+            helpers = re.findall(r"self\.([a-z_]+)\(\)\.await\?;", flat)
+            helpers = [h for h in helpers if h != "lookup_remote_node"]
+            mend = re.search(r"self\.transport\.set_frame_mode\(FrameMode::Distribution\)", flat)
+            if not mend:
+                broken.append("Connection::connect: set_frame_mode(FrameMode::Distribution) not found")
+            else:
+                last = [m.start() for m in re.finditer(r"self\.[a-z_]+\(\)\.await\?;", flat)]
+                if last and mend.start() < last[-1]:
+                    broken.append("Connection::connect: the frame mode is switched before the last handshake step")
+            if re.search(r"\.await(?!\?)", flat.replace(".await.map_err", ".await?")):
+                broken.append("Connection::connect: an awaited step whose error is not propagated with `?`")
+            for h in helpers:
+                hb = _fn_body(cn, r"async\s+fn\s+" + h + r"\s*\(\s*&mut\s+self\s*\)")
+                if hb is None:
+                    broken.append(f"Connection::{h} not found")
+                    continue
+                hf = re.sub(r"\s+", "", re.sub(r"//[^\n]*", "", hb))
+                hm = re.findall(r"self\.handshake\.([a-z_]+)\((?:&data)?\)\?", hf)
+                io = re.findall(r"self\.(transport\.write_raw\(&data\)|read_message\(\))\.await\?", hf)
+                if len(hm) != 1 or len(io) != 1:
+                    broken.append(f"Connection::{h}: expected one handshake call and one awaited transport operation, found {hm} {io}")
+                    continue
+                op = "write_raw" if io[0].startswith("transport") else "read"
+                # order inside the helper: a send prepares then writes, a receive reads then handles
+                ih = hf.find("self.handshake." + hm[0])
+                ii = hf.find("self." + io[0][:12])
+                if (op == "write_raw") != (ih < ii):
+                    broken.append(f"Connection::{h}: handshake call and transport operation are in an unexpected order")
+                steps.append((h, hm[0], op))
+        rb = _fn_body(cn, r"async\s+fn\s+read_message\s*\(\s*&mut\s+self\s*\)")
+        if rb is None or not re.search(r"self\.transport\.read\(\)\.await", rb):
+            broken.append("Connection::read_message no longer is self.transport.read().await")
+        lb = _fn_body(cn, r"async\s+fn\s+lookup_remote_node\s*\(\s*&self\s*\)")
+        if lb is None or not re.search(r"EpmdClient::new\(&self\.config\.epmd_host\)\.with_timeout\(self\.config\.timeout\)", lb) \
+                or not re.search(r"Self::validate_node_name\(&self\.config\.remote_node_name\)\?", lb) \
+                or not re.search(r"epmd\.lookup_node\(node_name\)\.await\?", lb):
+            broken.append("Connection::lookup_remote_node: with_timeout(self.config.timeout) / validate_node_name / lookup_node(node_name) not found")
+        vb = _fn_body(cn, r"fn\s+validate_node_name\s*\(")
+        mv = re.search(r"node_name\.len\(\)\s*>\s*([0-9]+)", vb or "")
+        if not mv:
+            broken.append("validate_node_name: `node_name.len() > <n>` not found")
+        lines.append(f"/-- `validate_node_name`: the longest remote node name (part before '@') looked up -/")
+        lines.append(f"def CONNECT_MAX_REMOTE_NAME : Nat := {num(mv.group(1)) if mv else 0}")
+    tr = read("crates/edp_client/src/transport.rs")
+    timed = []
+    if tr is None:
+        broken.append("transport.rs missing")
+    else:
+        for fn in ("read", "write", "write_raw"):
+            b = _fn_body(tr, r"pub\s+async\s+fn\s+" + fn + r"\s*\(")
+            if b is None:
+                broken.append(f"FramedTransport::{fn} not found")
+            elif re.search(r"tokio::time::timeout\(\s*self\.timeout\s*,", b) and re.search(r"map_err\(\|_\|\s*Error::Timeout\(self\.timeout\)\)", b):
+                timed.append(fn)
+        if cn is not None and not re.search(r"FramedTransport::new\(config\.timeout\)", cn):
+            broken.append("Connection::new no longer builds the transport with config.timeout")
+    lines.append("/-- what `Connection::connect` does before the handshake, in source order -/")
+    lines.append("def CONNECT_PRELUDE : List String := [" + ", ".join(f'"{n}"' for n in pre) + "]")
+    lines.append("/-- the handshake steps `Connection::connect` awaits, in source order: (helper, handshake method, transport operation) -/")
+    lines.append("def CONNECT_STEPS : List (String × String × String) := [" + ", ".join(f'("{a}", "{b}", "{c}")' for a, b, c in steps) + "]")
+    lines.append("/-- the `FramedTransport` operations wrapped in `tokio::time::timeout(self.timeout, ..)` -/")
+    lines.append("def TRANSPORT_UNDER_TIMEOUT : List String := [" + ", ".join(f'"{t}"' for t in timed) + "]")
+    lines.append("")
+    return lines, broken
+
+
+def gen_c15any(read, num):
+    """C15, `deserialize_any` (de.rs): per matched `OwnedTerm` constructor the `visit_*` calls of its arm in source order,
+    the atoms with a meaning of their own, and what the catch-all arm does. `Impl/SerdeAny.lean` is compared with it by
+    evaluation on probe terms (`Props/C15.lean`)."""
+    broken = []
+    lines = []
+    arms = []
+    atoms = []
+    src = read("crates/erltf_serde/src/de.rs")
+    if src is None:
+        broken.append("de.rs missing")
+    else:
+        ib = _fn_body(src, r"impl<'de>\s+SerdeDeserializer<'de>\s+for\s+&mut\s+Deserializer<'de>\s*\{")
+        body = _fn_body(ib or "", r"fn\s+deserialize_any\s*<") if ib else None
+        if body is None:
+            broken.append("Deserializer::deserialize_any not found")
+        else:
+            body = re.sub(r"//[^\n]*", "", body)
+            body = re.sub(r'#\[cfg\(feature\s*=\s*"elixir-interop"\)\][^\n]*\n[^\n]*\n', "", body)
+            if not re.search(r"match\s+self\.term\s*\{", body):
+                broken.append("deserialize_any no longer matches on self.term")
+            heads = list(re.finditer(r"OwnedTerm::([A-Za-z]+)(?:\s*\([^)]*\)|\s*\{[^}]*\})?\s*=>", body))
+            catch = re.search(r"\n\s*_\s*=>\s*Err\(Error::UnsupportedType", body)
+            if not catch:
+                broken.append("deserialize_any: catch-all `_ => Err(Error::UnsupportedType(..))` not found")
+            for k, h in enumerate(heads):
+                end = heads[k + 1].start() if k + 1 < len(heads) else (catch.start() if catch else len(body))
+                seg = body[h.end():end]
+                arms.append((h.group(1), re.findall(r"visitor\.(visit_[a-z0-9_]+)\(", seg), "integer_term_as" in seg))
+                if h.group(1) == "Atom":
+                    atoms = re.findall(r'"([^"]*)"\s*=>\s*visitor\.(visit_[a-z0-9_]+)\(([a-z]*)\)', seg)
+            if not arms:
+                broken.append("deserialize_any: no `OwnedTerm::X => ...` arms found")
+    lines.append("/-- `deserialize_any`: (constructor matched, the `visit_*` calls of the arm in source order) -/")
+    lines.append("def C15_ANY_ARMS : List (String × List String) := [" +
+                 ", ".join(f'("{c}", [' + ", ".join(f'"{v}"' for v in vs) + "])" for c, vs, _ in arms) + "]")
+    lines.append("/-- the constructors whose arm reads the number with `integer_term_as` -/")
+    lines.append("def C15_ANY_VIA_INTEGER_TERM_AS : List String := [" + ", ".join(f'"{c}"' for c, _, via in arms if via) + "]")
+    lines.append("/-- the atoms `deserialize_any` gives a meaning of their own (default features): (name, visit call, argument) -/")
+    lines.append("def C15_ANY_ATOMS : List (String × String × String) := [" +
+                 ", ".join(f'("{a}", "{v}", "{x}")' for a, v, x in atoms) + "]")
+    lines.append("/-- the same atom names as UTF-8 bytes -/")
+    lines.append("def C15_ANY_ATOM_BYTES : List (List UInt8) := [" +
+                 ", ".join("[" + ", ".join(str(b) for b in a.encode("utf-8")) + "]" for a, _, _ in atoms) + "]")
+    lines.append("")
+    return lines, broken
+
+
 def run(read, emit, num):
     """One generated module per part (`Generated/Misc<Part>.lean`), so that a change of the source rebuilds only the models
     and theorems that read that part; `Generated/Misc.lean` imports them all (for convenience; nothing in the library
     imports it). A part may use the definitions of an earlier part: it then imports that part's module."""
-    parts = (gen_c16, gen_c09, gen_c04, gen_c15, gen_c13, gen_c18, gen_c19, gen_state, gen_c20, gen_c05, gen_c08, gen_c10, gen_c11, gen_c07, gen_c14, gen_c16b, gen_c02, gen_c01, gen_c17, gen_c06, gen_mailbox)
+    parts = (gen_c16, gen_c09, gen_c04, gen_c15, gen_c13, gen_c18, gen_c19, gen_state, gen_c20, gen_c05, gen_c08, gen_c10, gen_c11, gen_c07, gen_c14, gen_c16b, gen_c02, gen_c01, gen_c17, gen_c06, gen_mailbox, gen_c04conn, gen_c15any)
     defined = {}   # generated name -> module that defines it
     mods = []
     for part in parts:
